@@ -1,7 +1,9 @@
 from typing import TYPE_CHECKING
 
 from taskiq.abc.broker import AsyncBroker
+from taskiq.compat import model_copy
 from taskiq.exceptions import NoResultError, TaskRejectedError
+from taskiq.labels import prepare_label
 from taskiq.message import TaskiqMessage
 
 if TYPE_CHECKING:  # pragma: no cover
@@ -30,7 +32,17 @@ class Context:
         requeue_count = int(self.message.labels.get("X-Taskiq-requeue", 0))
         requeue_count += 1
         self.message.labels["X-Taskiq-requeue"] = str(requeue_count)
-        await self.broker.kick(self.broker.formatter.dumps(self.message))
+        # Labels of the received message are already parsed,
+        # so they have to be prepared for sending again.
+        labels = {}
+        labels_types = {}
+        for label, label_val in self.message.labels.items():
+            labels[label], labels_types[label] = prepare_label(label_val)
+        message = model_copy(
+            self.message,
+            update={"labels": labels, "labels_types": labels_types},
+        )
+        await self.broker.kick(self.broker.formatter.dumps(message))
         raise NoResultError
 
     def reject(self) -> None:
